@@ -457,6 +457,10 @@ func areaCrash(r *Rng, n int, dir string) (*AreaOut, error) {
 				start(nin)
 				if listFails {
 					settle(1100 * time.Millisecond) // the start-up listing is retried after one second
+				} else if r.Chance(40) {
+					// the storage is unreachable for a few LATER polls, while the own old snapshot may still be on its way
+					settle(time.Duration(4+r.Intn(8)) * time.Millisecond)
+					atomic.StoreInt32(nin.failList, int32(1+r.Intn(3)))
 				}
 				restarts++
 				settle(time.Duration(20+r.Intn(60)) * time.Millisecond)
@@ -819,6 +823,9 @@ func areaCrash(r *Rng, n int, dir string) (*AreaOut, error) {
 	}
 	_ = bytes.Equal
 	if err := hookReady(out); err != nil {
+		return nil, err
+	}
+	if err := corruptBlobsOnRealLoops(out); err != nil {
 		return nil, err
 	}
 	out.Cases = len(cases)
